@@ -15,6 +15,6 @@ for k in $(seq 1 $((SLOTS-1))); do
   [ -d kani/target/w$k ] || cp -r kani/target/w0 kani/target/w$k
 done
 echo 'fn main() {}' > replay/src/main.rs
-(cd replay && cargo build --offline --bin replay >/dev/null 2>&1 && cargo build --offline --release --bin replay >/dev/null 2>&1) || { echo "replay twin failed to build"; exit 1; }
+(cd replay && cargo build --offline --bins >/dev/null 2>&1 && cargo build --offline --release --bins >/dev/null 2>&1) || { echo "replay twin failed to build"; exit 1; }
 if [ -d lalr ]; then (cd lalr && cargo build --offline >/dev/null 2>&1) || { echo "lalrpop helper failed to build"; exit 1; }; fi
 echo "setup done"
